@@ -1059,6 +1059,23 @@ func callBuiltin(caller *frame, callpos token.Pos, fn *ssa.Builtin, args []value
 		i.mapDelete(args[0].(*omap), args[1])
 		return nil
 
+	case "clear": // clear(map) / clear([]T)
+		switch x := args[0].(type) {
+		case *omap:
+			if x != nil {
+				x.keys, x.vals, x.nsym = nil, nil, 0
+				x.idx = make(map[interface{}]int)
+			}
+		case []value:
+			elt := fn.Type().(*types.Signature).Params().At(0).Type().Underlying().(*types.Slice).Elem()
+			for k := range x {
+				x[k] = zero(elt)
+			}
+		default:
+			panic(pathAbort{"unsupported", fmt.Sprintf("clear(%T)", x)})
+		}
+		return nil
+
 	case "print", "println": // print(any, ...)
 		return nil
 
@@ -1093,9 +1110,11 @@ func callBuiltin(caller *frame, callpos token.Pos, fn *ssa.Builtin, args []value
 		}
 
 	case "min":
-		return foldLeft(func(x, y value) value { return i.minmax(x, y, true) }, args)
+		mt := fn.Type().(*types.Signature).Params().At(0).Type()
+		return foldLeft(func(x, y value) value { return i.minmax(mt, x, y, true) }, args)
 	case "max":
-		return foldLeft(func(x, y value) value { return i.minmax(x, y, false) }, args)
+		mt := fn.Type().(*types.Signature).Params().At(0).Type()
+		return foldLeft(func(x, y value) value { return i.minmax(mt, x, y, false) }, args)
 
 	case "panic":
 		// ssa.Panic handles most cases; this is only for "go
@@ -1122,9 +1141,13 @@ func callBuiltin(caller *frame, callpos token.Pos, fn *ssa.Builtin, args []value
 	panic("unknown built-in: " + fn.Name())
 }
 
-func (i *interpreter) minmax(x, y value, isMin bool) value {
+func (i *interpreter) minmax(t types.Type, x, y value, isMin bool) value {
 	if isSym(x) || isSym(y) {
-		panic(pathAbort{"unsupported", "min/max on symbolic values"})
+		// a decision: which operand is smaller
+		if i.asBool(i.symBinop(token.LSS, t, x, y)) == isMin {
+			return x
+		}
+		return y
 	}
 	if isMin {
 		return min(i, x, y)
